@@ -27,7 +27,8 @@ MODELLED = ["opt_nu (scipy.special.psi + scipy.optimize.bisect on [1e-300, 1e6],
             "only to tolerance, data sets are generated with moderate conditioning",
             "np.median / np.cov / np.var / np.dot (pairwise and BLAS summation orders) are modelled by sequential sums: tolerance",
             "the theorems (Props/C19.lean) are about the matrix form over the reals of the same formulas as the executable list twin "
-            "(Model/Student.lean); the two Lean forms are related by inspection, not by a Lean theorem",
+            "(Model/Student.lean): one loop iteration of the twin is proved equal to the matrix iteration (C19_twin_step, given that the "
+            "twin's Gauss-Jordan inverse is the inverse); initialisation, stop rule and loop control of the two forms are related by inspection",
             "recovery of the generating parameters of large t samples is not proved: fixed-seed witness F19 + loose sanity check in search"]
 ASSUMPTIONS = ["data sets are non-degenerate (not contained in an affine hyperplane) and n >= 2",
                "opt_nu answers in (0, inf] (contract of scipy's bisection bracket), np.median is affine-equivariant and lies in "
@@ -367,7 +368,7 @@ def _knife_edge(data, **kw):
     for S, D in r["solves"]:
         delta = np.sum(D * np.linalg.solve(S, D), 0)
         for numax in (1e6,):
-            if abs(_func0(numax, delta, d, n)) < 1e-9:
+            if abs(_func0(numax, delta, d, n)) < 2e-13:   # evaluation noise of func0 at 1e6 is ~1e-14
                 return True
     return False
 
@@ -492,16 +493,25 @@ def search(tier, hints):
         except Exception as e:  # noqa
             msg = f"oracle raised {type(e).__name__}: {e}"
         if msg:
-            found.append(dict(case, what=msg))
+            head = {"what": msg}
+            head.update({k: v for k, v in case.items() if k != "data_hex"})
+            if "data_hex" in case:
+                head["data_hex"] = case["data_hex"]
+            found.append(head)
         return len(found) >= 5
 
     rng = common.rng_for("C19.search")
 
-    def transforms(d):
+    def transforms(data):
+        # scalings are powers of two (exact in floating point); the translation is a moderate multiple of the
+        # coordinate's own range, so that adding it perturbs the data by at most a few ulps of the range
+        # (a shift of 50 on a coordinate scaled down to a spread of 1e-6 would wipe out 8 digits of the INPUT)
+        d = data.shape[1]
         perm = list(range(d))
         rng.shuffle(perm)
         pw = [rng.randint(-20, 20) for _ in range(d)]
-        shift = [0.0] * d if rng.random() < 0.3 else [rng.uniform(-50, 50) for _ in range(d)]
+        rg = (data.max(0) - data.min(0))[perm]
+        shift = [0.0] * d if rng.random() < 0.3 else [float(math.ldexp(rng.uniform(-8, 8) * rg[a], pw[a])) for a in range(d)]
         return perm, pw, shift
 
     # 1. inputs on which the correspondence disagreed
@@ -511,7 +521,7 @@ def search(tier, hints):
             base = {"data_hex": h["data_hex"], "shape": [n, d]}
             if consider(dict(base, kind="wellposed", tol=h.get("tol", 1e-6), maxit=h.get("maxit", 100))):
                 return found
-            perm, pw, shift = transforms(d)
+            perm, pw, shift = transforms(np.array([hex2f(v) for v in h["data_hex"]], dtype=float).reshape(n, d))
             if consider(dict(base, kind="equiv", perm=perm, pw=pw, shift=shift)):
                 return found
         if "dofs" in h and h.get("fb") is not None:
@@ -533,7 +543,7 @@ def search(tier, hints):
         base = {"data_hex": [f2hex(v) for v in data.ravel()], "shape": [n, d], "law": law}
         if consider(dict(base, kind="wellposed")):
             return found
-        perm, pw, shift = transforms(d)
+        perm, pw, shift = transforms(data)
         if consider(dict(base, kind="equiv", perm=perm, pw=pw, shift=shift)):
             return found
     # 4. recovery of the generating parameters (loose)
